@@ -291,7 +291,9 @@ PROPS = {
                        "of a close pair); skip_value == the byte after the matching close / after the closing unescaped quote / after an "
                        "exactly spelled literal / after the maximal number-character run, None otherwise. The first clause of the property "
                        "(the index lists exactly the bracket, comma and colon bytes outside strings, in order) is the bit layer proved for "
-                       "the builders under C05 (units c05_simple, c05_simple_sse2, run again by this check).",
+                       "the builders under C05 (units c05_simple, c05_simple_sse2, run again by this check). A bounded Kani harness (every 9-word "
+                       "interest bitmap, every position) re-checks ib_rank1 / structural_index on the compiled code and supplies replayable "
+                       "counterexamples when a rewrite changes the loop structure the extraction is keyed to.",
         "trusted_base": COMMON_TRUST + ["Verus 0.2026.09.13 + Z3", "seam R4: BalancedParens::find_close contract (unit c04_find), scan_select (c01_scan), select_in_word (Kani C02)"],
         "assumptions": ["simple_wf (interest bits mark structural characters; BP pair j is 11/00/01 for the j-th structural character being an "
                         "open/close/delimiter) is now DERIVED: unit c05_simple proves lemma_reference_is_simple_wf (is_reference, the builders' "
